@@ -277,3 +277,10 @@ func extraSnippets() map[string]string {
 		"comments":     "// Copyright\n\n//go:build linux\n\n// Package p doc.\npackage p // trailing\n\n// Doc of f.\nfunc f( /* a */ x int /* b */) { // open\n\t// inside\n\tg() // after g\n\n\t/* block */\n\n\t// hanging\n}\n\n// trailing file comment\n",
 	}
 }
+
+func repoDir() string {
+	if d := os.Getenv("VERIF_REPO"); d != "" {
+		return d
+	}
+	return "/repo"
+}
